@@ -1,13 +1,17 @@
 import PgVerif.Proofs.Chart
 import PgVerif.Spec.SPPF
+import PgVerif.Proofs.SPPF
 /-!
 # C02 — the forest contains every derivation
 
 The reference "complete SPPF" is computed from the chart. Proved here: the chart
-contains exactly the derivable spans (sound; complete once saturated), and every
-split the reference enumerates consists of derivable pieces. The comparison of
-the implementation forest's packed alternatives with this reference is the
-bounded part (explored scope); see DESIGN.md.
+contains exactly the derivable spans (sound; complete once saturated), and the
+reference is **exact** (`C02_reference_sppf_exact`): whenever it returns a list,
+that list holds exactly the packed alternatives (span, production, split into
+derivable pieces) of the spans that occur top-down in some parse of the input —
+for every grammar (ambiguous, nullable, cyclic) and input. The comparison of the
+implementation forest's packed alternatives with this reference is the bounded
+part (explored scope); see DESIGN.md.
 -/
 namespace Pg
 
@@ -46,5 +50,11 @@ theorem C02_split_pieces_derivable (fuel : Nat) :
     obtain ⟨t, ht⟩ := symEnds_sound hs X i k (List.mem_eraseDups.mp hk)
     obtain ⟨ts, hts⟩ := ih k j ks' hks'
     exact ⟨[t] ++ ts, DerivesSeq.append ht hts⟩
+
+/-- The reference SPPF is exact: sound and complete, for every grammar and input. -/
+theorem C02_reference_sppf_exact (hin : InputOK inp) (fuel : Nat) (consume : Bool) (alts : List PAlt)
+    (h : sppfAlts g inp fuel consume = some alts) (a : PAlt) :
+    a ∈ alts ↔ Useful g inp consume (a.A, a.i, a.j) ∧ PackedAlt g inp a :=
+  sppfAlts_correct hin fuel consume alts h a
 
 end Pg
